@@ -82,7 +82,7 @@ func (im *imp) check(rel, path string) (*types.Package, *types.Info, []*ast.File
 			files = append(files, f)
 		}
 	}
-	info := &types.Info{Types: map[ast.Expr]types.TypeAndValue{}, Uses: map[*ast.Ident]types.Object{}, Defs: map[*ast.Ident]types.Object{}, Selections: map[*ast.SelectorExpr]*types.Selection{}}
+	info := &types.Info{Types: map[ast.Expr]types.TypeAndValue{}, Uses: map[*ast.Ident]types.Object{}, Defs: map[*ast.Ident]types.Object{}, Selections: map[*ast.SelectorExpr]*types.Selection{}, Scopes: map[ast.Node]*types.Scope{}}
 	conf := types.Config{Importer: im, Error: func(error) {}, FakeImportC: true}
 	p, _ := conf.Check(path, im.fset, files, info)
 	if p == nil {
